@@ -1,0 +1,20 @@
+//go:build verif
+
+package sortindex
+
+// C18 (arbitrary bytes fed to an on-disk decoder never crash the server): the
+// sort index file has no checksum.  Its header stores the number of unique
+// values, which sizes the offset table: the table is allocated only for a count
+// that the file can hold (8 bytes per value), so a damaged count cannot make the
+// reader ask for memory the file does not justify; reading the header is
+// panic-free for every content (binary.Read fills the slice it is given and does not resize it: site assumption).  Checked by /verif/bin/govc.  Comment-only file.
+//@ func readMetadata
+//@   props C18
+//@   requires file != nil
+//@   safe
+//@   site callret binary.Read #1:
+//@     assume len(version) == 1
+//@   site call make #2:
+//@     assert [offset-table-sized-by-a-count-the-file-can-hold] arg1 >= 0 && uint64(arg1) <= uint64(fileStat.Size()) / 8
+//@   ensures [a-read-header-comes-with-its-table] implies(result1 == nil, result0 != nil)
+//@ end
